@@ -985,11 +985,8 @@ def fam_hexital(rng, pid, count, twins=("standalone",)):
         # (a window of 12 / 20 of the coarsest buckets, or a lifespan of zero: only the newest candle is kept)
         life = timedelta(seconds=biggest * rng.choice([12, 20, 0])) if rng.random() < 0.2 else None
         if pid != "C08":
-            # batch = incremental is not claimed under a lifespan (C15 owns it), and the two open C08
-            # findings (K01, K02) are kept inside the C08 check
+            # batch = incremental is not claimed under a lifespan (C15 owns it)
             life = None
-            if fill and base_tf and any(c.timeframe and c.timeframe != base_tf for c in cfgs):
-                fill = False
         hexcfg = {"timeframe": base_tf, "fill": fill, "lifespan": life, "ctype": "HA" if ha else None}
         n = rng.randint(16, 22) if ha else rng.randint(20, 34)   # HA values double their denominator per candle
         small = next((x for x in ladder if x in tfs), None)
